@@ -15,7 +15,7 @@ ROUTES = ["writeSetFL", "class", "config-setfl", "config-lammps_eam_alloy", "cli
 def gen_case(rng, nmax=4):
     route = rng.choice(ROUTES)
     potable = route not in ("writeSetFL", "class")
-    m = eamlib.gen_model(rng, fs=False, potable=potable, nmax=nmax)
+    m = eamlib.gen_model(rng, fs=False, potable=potable, nmax=nmax, fine=True)
     if potable:
         eamlib.make_potable_variants(rng, m)
         if rng.random() < 0.08 and any(e not in eamlib.BUILTIN for e in m["els"]):
